@@ -14,11 +14,13 @@ package metrics
 
 //@ func MeasureConn
 //@   props C02 C15 C18
+//@   params conn bytesSent bytesReceived
 //@   ensures result != nil && typeis(result, "*metrics.measuredConn") && as(result, "*metrics.measuredConn") != nil
 //@   ensures[C15,counters-wired] as(result, "*metrics.measuredConn").StreamConn == conn && as(result, "*metrics.measuredConn").writeCount == bytesSent && as(result, "*metrics.measuredConn").readCount == bytesReceived
 
 //@ func (*measuredConn).Read
 //@   props C02 C15 C18
+//@   params c b
 //@   arith-trusted byte counters stay below 2^63
 //@   requires validMC(c)
 //@   ensures[C15,read-counted-exactly] *c.readCount == old(*c.readCount) + result.0 && *c.writeCount == old(*c.writeCount)
@@ -27,6 +29,7 @@ package metrics
 
 //@ func (*measuredConn).Write
 //@   props C02 C15 C18
+//@   params c b
 //@   arith-trusted byte counters stay below 2^63
 //@   requires validMC(c)
 //@   ensures[C15,write-counted-exactly] *c.writeCount == old(*c.writeCount) + result.0 && *c.readCount == old(*c.readCount)
@@ -35,6 +38,7 @@ package metrics
 
 //@ func (*measuredConn).WriteTo
 //@   props C02 C15 C18
+//@   params c w
 //@   arith-trusted byte counters stay below 2^63
 //@   requires validMC(c)
 //@   ensures[C15,read-counted-exactly] *c.readCount == old(*c.readCount) + result.0 && *c.writeCount == old(*c.writeCount)
@@ -43,6 +47,7 @@ package metrics
 
 //@ func (*measuredConn).ReadFrom
 //@   props C02 C15 C18
+//@   params c r
 //@   arith-trusted byte counters stay below 2^63
 //@   requires validMC(c)
 //@   ensures[C15,write-counted-exactly] *c.writeCount == old(*c.writeCount) + result.0 && *c.readCount == old(*c.readCount)
